@@ -475,3 +475,18 @@ brk("c18_unfix_mimic_clobber", [], {"C18": ["C18.7"]}, note="reverse of fix 0023
 brk("c05_unfix_alias_arguments", [], {"C05": ["C05.13"]}, note="reverse of fix 0024")
 brk("c18_unfix_self_keyword", [], {"C18": ["C18.1"]}, note="reverse of fixes 0026, 0025")
 brk("c18_unfix_class_access", [], {"C18": ["C18.1"]}, note="reverse of fix 0026")
+
+# =============================================================================================== sweep-triage additions (v2)
+AS = "helpers.asynchrony"
+brk("c18_wrap_async_dispatch_negated", [E(f"{AS}.wrap_async", lambda n: isinstance(n, ast.If), lambda s: s.replace("if iscoroutinefunction(function):", "if not iscoroutinefunction(function):", 1))], {"C18": ["C18.2"]})
+brk("c18_asynchronous_assert_inverted", [E(f"{AS}.asynchronous.wrap", lambda n: isinstance(n, ast.Assert), lambda s: s.replace("assert not iscoroutinefunction(wrapped)", "assert iscoroutinefunction(wrapped)"))], {"C18": ["C18.2"]})
+brk("c18_executor_default_flipped", [E(f"{AS}.asynchronous.wrap", lambda n: isinstance(n, ast.IfExp), lambda s: s.replace("executor is MISSING", "executor is not MISSING"))], {"C18": ["C18.2"]})
+brk("c18_loop_and_instead_of_or", [E(f"{AS}._ExecutorWrapper.__call__", lambda n: isinstance(n, ast.BoolOp), lambda s: s.replace(" or ", " and "))], {"C18": ["C18.2"]})
+brk("c18_configured_loop_ignored", [E(f"{AS}._ExecutorWrapper.__method_call__", lambda n: isinstance(n, ast.BoolOp), to("get_running_loop()"))], {"C18": ["C18.2"]})
+brk("c10_unmerged_view_none", [E("context.metrics.ScopeMetrics.metrics", lambda n: isinstance(n, ast.Return), to("return None"), nth=0)], {"C10": ["C10.5"]})
+STS = "state.structure.State"
+brk("c05_cgi_cache_negated", [E(f"{STS}.__class_getitem__", lambda n: isinstance(n, ast.If) and "_types_cache" in U(n.test), lambda s: s.replace("if cached := _types_cache.get((cls, type_arguments)):", "if not (cached := _types_cache.get((cls, type_arguments))):", 1))], {"C05": ["C05.14"]})
+brk("c05_cgi_type_parameters_dropped", [E(f"{STS}.__class_getitem__", lambda n: isinstance(n, ast.Call) and "StateMeta.__new__" in U(n.func), lambda s: s.replace("type_parameters=type_parameters,", ""))], {"C05": ["C05.14"]})
+brk("c05_cgi_returns_none", [E(f"{STS}.__class_getitem__", lambda n: isinstance(n, ast.Return), to("return None"), nth=-1)], {"C05": ["C05.14"]})
+brk("c05_meta_type_parameters_dropped", [E("state.structure.StateMeta.__new__", lambda n: isinstance(n, ast.Call) and U(n.func) == "attribute_annotations", lambda s: s.replace("type_parameters=type_parameters,", ""))], {"C05": ["C05.14"]})
+brk("c05_mapping_factory_returns_none", [E("state.validation._prepare_validator_of_mapping", lambda n: isinstance(n, ast.Return) and U(n) == "return validator", to("return None"))], {"C05": ["C05.15"]})
